@@ -186,6 +186,61 @@ inductive JV
   | obj (kvs : List (String × JV))
 deriving Repr
 
+/-! Decidable equality of `JV` (the `deriving` handler does not cover nested inductives). -/
+
+mutual
+def JV.beq : JV → JV → Bool
+  | .null, .null => true
+  | .bool a, .bool b => a == b
+  | .int a, .int b => a == b
+  | .flt a, .flt b => a == b
+  | .str a, .str b => a == b
+  | .arr a, .arr b => JV.beqL a b
+  | .obj a, .obj b => JV.beqKV a b
+  | _, _ => false
+def JV.beqL : List JV → List JV → Bool
+  | [], [] => true
+  | x :: xs, y :: ys => JV.beq x y && JV.beqL xs ys
+  | _, _ => false
+def JV.beqKV : List (String × JV) → List (String × JV) → Bool
+  | [], [] => true
+  | (k, x) :: xs, (k', y) :: ys => k == k' && JV.beq x y && JV.beqKV xs ys
+  | _, _ => false
+end
+
+mutual
+theorem JV.beq_iff : ∀ (a b : JV), JV.beq a b = true ↔ a = b
+  | .null, b => by cases b <;> simp [JV.beq]
+  | .bool x, b => by cases b <;> simp [JV.beq]
+  | .int x, b => by cases b <;> simp [JV.beq]
+  | .flt x, b => by cases b <;> simp [JV.beq]
+  | .str x, b => by cases b <;> simp [JV.beq]
+  | .arr x, b => by
+    cases b <;> simp [JV.beq]
+    exact JV.beqL_iff x _
+  | .obj x, b => by
+    cases b <;> simp [JV.beq]
+    exact JV.beqKV_iff x _
+theorem JV.beqL_iff : ∀ (a b : List JV), JV.beqL a b = true ↔ a = b
+  | [], b => by cases b <;> simp [JV.beqL]
+  | x :: xs, b => by
+    cases b with
+    | nil => simp [JV.beqL]
+    | cons y ys => simp [JV.beqL, JV.beq_iff x y, JV.beqL_iff xs ys]
+theorem JV.beqKV_iff : ∀ (a b : List (String × JV)), JV.beqKV a b = true ↔ a = b
+  | [], b => by cases b <;> simp [JV.beqKV]
+  | (k, x) :: xs, b => by
+    cases b with
+    | nil => simp [JV.beqKV]
+    | cons y ys =>
+      obtain ⟨k', y⟩ := y
+      simp [JV.beqKV, JV.beq_iff x y, JV.beqKV_iff xs ys, and_assoc]
+end
+
+instance : DecidableEq JV := fun a b =>
+  if h : JV.beq a b = true then isTrue ((JV.beq_iff a b).1 h)
+  else isFalse (fun e => h ((JV.beq_iff a b).2 e))
+
 /-- `dict.get(k)` as an `Option`. -/
 def lookup (kvs : List (String × JV)) (k : String) : Option JV :=
   match kvs.find? (fun e => e.1 == k) with
@@ -264,7 +319,7 @@ inductive Raised
   | invalidStatus
   | mismatch (proto name : JV) (supported : Bool)
   | py (e : Err)
-deriving Repr
+deriving DecidableEq, Repr
 
 /-- `connect v fb`: `handle_proto_version(v)` was called (`fb` = via `handle_failure()`), which sets
 `allowed_proto_versions = {v}` and calls `connect()` again.  `connectFloat n`: the same call with the
@@ -275,7 +330,7 @@ inductive Outcome
   | connect (v : Nat) (fallback : Bool)
   | connectFloat (n : Int)
   | raised (r : Raised)
-deriving Repr
+deriving DecidableEq, Repr
 
 /-- `KNOWN_MINECRAFT_VERSIONS.get(server_version)` (l.555): hashing first; only `str` keys exist. -/
 def lookupKnown (knownNames : List (String × Nat)) : JV → Except Err JV
@@ -372,7 +427,7 @@ inductive Reply
   | badJson
   | closed
   | ioError
-deriving Repr
+deriving DecidableEq, Repr
 
 /-- `isinstance(exc, EOFError)`. -/
 def isEOFError : Raised → Bool
